@@ -368,26 +368,7 @@ func mapOrderSelection(c *Ctx) {
 			n++
 			construct := fmt.Sprintf("%s#return-in-map-range@%d", fname, n)
 			m := types.ExprString(overMap.X)
-			single := false
-			for _, y := range chain {
-				switch s := y.(type) {
-				case *ast.CaseClause:
-					// case 1 of switch len(m)
-					for j := len(chain) - 1; j >= 0; j-- {
-						if sw, isSw := chain[j].(*ast.SwitchStmt); isSw && sw.Tag != nil && types.ExprString(sw.Tag) == "len("+m+")" {
-							for _, e := range s.List {
-								if v, isC := constOf(d.pkg, e); isC && v.isInt() && v.int() == 1 && len(s.List) == 1 {
-									single = true
-								}
-							}
-						}
-					}
-				case *ast.IfStmt:
-					if types.ExprString(s.Cond) == "len("+m+") == 1" {
-						single = true
-					}
-				}
-			}
+			single := underLenOne(d, chain, m)
 			c.check(single, R, construct, c.P.Pos(rs.Pos()), "returned out of a map iteration only when the map has exactly one entry",
 				fmt.Sprintf("a value is returned from inside a range over the map %s without a dominating len(%s) == 1 test: which element is returned depends on Go's randomised map iteration order (and an ambiguity goes unreported)", m, m))
 			return true
@@ -409,12 +390,7 @@ func mapOrderSelection(c *Ctx) {
 			n++
 			construct := fmt.Sprintf("%s#return-first@%d", fname, n)
 			want := "len(" + types.ExprString(ix.X) + ") == 1"
-			single := false
-			for _, y := range enclosing(d.fd.Body, rs) {
-				if s, isIf := y.(*ast.IfStmt); isIf && types.ExprString(s.Cond) == want {
-					single = true
-				}
-			}
+			single := underLenOne(d, enclosing(d.fd.Body, rs), types.ExprString(ix.X))
 			c.check(single, R, construct, c.P.Pos(rs.Pos()), "first element returned only under "+want,
 				fmt.Sprintf("%s is returned without a dominating `%s`: with several candidates the choice depends on iteration order", types.ExprString(ix), want))
 			return true
@@ -578,4 +554,54 @@ func purlAccessor(c *Ctx) {
 		}
 		c.check(uses, R, "sbom.(*NodeList).indexNodesByPurl#Purl", c.P.Pos(d.fd.Pos()), "the purl index is built from Purl()", "the purl index is not built from Node.Purl()")
 	}
+}
+
+// underLenOne: the innermost statement of chain executes only when len(coll) == 1 — it sits in
+// the body of `if … len(coll) == 1 …` (a conjunct), in `case 1:` of `switch len(coll)`, or in a
+// `case len(coll) == 1:` of a tagless switch.
+func underLenOne(d *declInfo, chain []ast.Node, coll string) bool {
+	want := normText("len(" + coll + ")")
+	isLenOne := func(e ast.Expr) bool {
+		for _, cj := range conjuncts(e) {
+			if be, ok := cj.(*ast.BinaryExpr); ok && be.Op == token.EQL {
+				x, y := be.X, be.Y
+				if v, isC := constOf(d.pkg, x); isC && v.isInt() && v.int() == 1 {
+					x, y = y, x
+				}
+				if v, isC := constOf(d.pkg, y); isC && v.isInt() && v.int() == 1 && normText(types.ExprString(x)) == want {
+					return true
+				}
+			}
+		}
+		return false
+	}
+	for i, y := range chain {
+		switch s := y.(type) {
+		case *ast.IfStmt:
+			if i+1 < len(chain) && chain[i+1] == ast.Node(s.Body) && isLenOne(s.Cond) {
+				return true
+			}
+		case *ast.CaseClause:
+			if len(s.List) != 1 {
+				continue
+			}
+			for j := i - 1; j >= 0; j-- {
+				sw, isSw := chain[j].(*ast.SwitchStmt)
+				if !isSw {
+					continue
+				}
+				if sw.Tag == nil {
+					if isLenOne(s.List[0]) {
+						return true
+					}
+				} else if normText(types.ExprString(sw.Tag)) == want {
+					if v, isC := constOf(d.pkg, s.List[0]); isC && v.isInt() && v.int() == 1 {
+						return true
+					}
+				}
+				break
+			}
+		}
+	}
+	return false
 }
